@@ -27,7 +27,7 @@ type C02Cell struct {
 	prepare bool // replayonce: build the always-failing variant that writes the fail file
 }
 
-var c02Contexts = []string{"body", "action", "inv", "custom", "customretry", "cleanup", "ccleanup", "go"}
+var c02Contexts = []string{"body", "action", "inv", "custom", "custom2", "customretry", "cleanup", "ccleanup", "go"}
 var c02Positions = []string{"first", "later", "last", "afterskips", "step", "replayonce", "replayshort", "late"}
 
 type c02 struct{}
@@ -101,6 +101,11 @@ func buildCell(cell *C02Cell, lastVal int64) (*Prog, CheckCfg) {
 	case "custom":
 		p.Body = append(p.Body, guarded([]*Stmt{{Op: "draw", Label: "c", Gen: &GenSpec{K: "custom", Body: append([]*Stmt{
 			{Op: "draw", Label: "c0", Gen: wideInt()}}, sig...)}}}))
+	case "custom2":
+		// a Custom generator function that draws from another Custom generator, whose function signals: two inner Ts
+		inner := &GenSpec{K: "custom", Body: append([]*Stmt{{Op: "draw", Label: "c0", Gen: wideInt()}}, sig...)}
+		outer := &GenSpec{K: "custom", Body: []*Stmt{{Op: "draw", Label: "o0", Gen: wideInt()}, {Op: "draw", Label: "in", Gen: inner}, {Op: "draw", Label: "o1", Gen: &GenSpec{K: "bool"}}}}
+		p.Body = append(p.Body, guarded([]*Stmt{{Op: "draw", Label: "c", Gen: outer}}))
 	case "customretry":
 		// the function skips (and is retried) for two thirds of its first draws, and signals in a later attempt
 		p.Body = append(p.Body, guarded([]*Stmt{{Op: "draw", Label: "c", Gen: &GenSpec{K: "custom", Body: append([]*Stmt{
